@@ -62,10 +62,10 @@ def cases(tier, seed):
     for L in LMAXES:
         for dim in (3, 2):
             add('tables', L, dim=dim)
-    nops = 40 if tier == 'quick' else 1000
+    nops = 40 if tier == 'quick' else 2500
     for i in range(nops):
         L = 4 if i % 2 == 0 else (2, 3, 5, 6)[(i // 2) % 4]
-        add('ops', L, trials=(10 if tier == 'quick' else 12))
+        add('ops', L, trials=(10 if tier == 'quick' else 16))
     return cs
 
 
